@@ -4,6 +4,7 @@ C15-a  primitive codecs: bytes written by each primitive WriteBinary impl == SIZ
 C15-b  record layout agreement: for every type with a reader and a writer, the sequences of items along the
        success path agree in width, field and constants (prefix up to the first data-dependent branch)
 C15-c  no silent truncation in writers: integer narrowings reachable from writers are checked, bounded or audited
+C15-f  CFF INDEX offSize is chosen by the spec thresholds from the largest offset
 C15-e  offsets written into placeholders are relative (bytes_written() - start)
 C15-d  placeholders are filled: a Placeholder obtained from the context is consumed on every Ok path
 """
@@ -293,6 +294,53 @@ def c15_e(run, fx, floors):
         run.floor(rule, "position-derived placeholder values", n, 10)
 
 
+def c15_f(run, fx):
+    rule = "C15-f"
+    run.rule(rule, "CFF INDEX offSize: cff::offset_size is the decision table [0,0xFF]->1, [0x100,0xFFFF]->2, [0x10000,0xFFFFFF]->3, "
+                   "[0x1000000,0xFFFFFFFF]->4, else None, applied to its argument unmodified; serialise_offset_array applies it to the last "
+                   "(largest) element of the very offset list it then writes with that width")
+    import tableread
+    b = fx.body("cff::offset_size")
+    if b is None:
+        run.anchor_missing(rule, "cff::offset_size")
+    else:
+        try:
+            f, bps = tableread.scalar_fn(b)
+            want = {0: 1, 1: 1, 0xFF: 1, 0x100: 2, 0xFFFF: 2, 0x10000: 3, 0xFFFFFF: 3, 0x1000000: 4, 0xFFFFFFFF: 4, 0x100000000: None}
+            bad = []
+            for v, w in sorted(want.items()):
+                r = f(v)
+                got = r[1] if r[0] == "some" else None
+                if got != w:
+                    bad.append("offset_size(%#x) = %s, expected %s" % (v, got, w))
+            if bad:
+                run.fail(rule, "offsize:table", "; ".join(bad), "%s:%s" % (b.file, b.line))
+            else:
+                run.ok(rule, "offset_size: thresholds 0xFF / 0xFFFF / 0xFFFFFF / 0xFFFFFFFF on the unmodified argument")
+        except tableread.TableShape as e:
+            run.fail(rule, "offsize:shape", "cff::offset_size is not a decision table over its argument: %s" % e, "%s:%s" % (b.file, b.line))
+    s_ = fx.body("cff::serialise_offset_array")
+    if s_ is None:
+        return run.anchor_missing(rule, "cff::serialise_offset_array")
+    prov = sym.Prov(s_)
+    calls = [(bi, t) for bi, t in s_.calls() if callee_is(t, "cff::offset_size")]
+    if len(calls) != 1:
+        return run.fail(rule, "offsize:caller", "expected one offset_size call in serialise_offset_array, found %d" % len(calls), "%s:%s" % (s_.file, s_.line))
+    a = sym.strip(prov.op(calls[0][1]["args"][0]))
+    ok = False
+    t = a
+    while t[0] in ("deref", "ref"):
+        t = sym.strip(t[1])
+    if t[0] == "call" and (t[4] or "").endswith(("::unwrap", "::expect")) and t[2]:
+        l = sym.strip(t[2][0])
+        if l[0] == "call" and (l[1] or "").endswith("::last") and any(x[0] == "arg" and x[1] == 1 for x in sym.walk(l)):
+            ok = True
+    if ok:
+        run.ok(rule, "serialise_offset_array: off_size = offset_size(*offsets.last()) of the list it writes")
+    else:
+        run.fail(rule, "offsize:argument", "offset_size is applied to %s, not to the last offset of the list being written: the last offset may not fit the chosen width" % sym.show(a)[:70], s_.loc(calls[0][1]))
+
+
 def follow_moves(b, l0):
     holders = {l0}
     changed = True
@@ -331,3 +379,5 @@ def check(run, fx, tier, floors=True):
     narrowing.rule_narrowing(run, fx, "C15-c", floors, roots=narrowing.writer_roots(fx))
     c15_d(run, fx, floors)
     c15_e(run, fx, floors)
+    if floors or fx.body("cff::offset_size") is not None:
+        c15_f(run, fx)
